@@ -52,6 +52,7 @@ type Contract struct {
 	Declass  []*Clause
 	NoFrame  bool
 	Timeout  int
+	BoundedChecks []string // harness names of bounded execution stand-ins (trusted contracts)
 	Bounded  []string // stated bounds (reported in the evidence)
 	Options  map[string]bool // engine options for the verification of this function (e.g. digits)
 	Source   string
@@ -405,6 +406,8 @@ func (db *SpecDB) loadFile(path string, pkgPath string, marker bool) error {
 				cur.Aliasing = rest
 			case "timeout":
 				cur.Timeout, _ = strconv.Atoi(rest)
+			case "boundedcheck":
+				cur.BoundedChecks = append(cur.BoundedChecks, strings.Fields(rest)...)
 			case "bounded":
 				// a stated bound: the contract is verified only within it (reported as bounded, not as proved)
 				cur.Bounded = append(cur.Bounded, rest)
